@@ -23,7 +23,7 @@ claim('C19', 'other',
       "standards x both header variants on the corner combinations; thorough: 2 compilers x 4 standards x 2 variants x "
       "all combinations); the shipped single header is byte-identical to a fresh tools/join.py run and to an independent "
       "re-implementation of the merge; per-feature differential comparison of the extracted facts shows that switching a "
-      "feature on only adds code that touches feature-owned state; the logging differential of C16 (bodies identical after erasing exactly the log statements) is an obligation here too; the plan feature's code stays inside its own bit arrays for every id the library feeds into it (C19.d = C18.h); the configuration setters mean the same with and without the plan feature, in every order (C19.e).",
+      "feature on only adds code that touches feature-owned state; the logging differential of C16 (bodies identical after erasing exactly the log statements) is an obligation here too; the plan feature's code stays inside its own bit arrays for every id the library feeds into it (C19.d = C18.h); the configuration setters mean the same with and without the plan feature, in every order (C19.e); the per-feature differential includes pairs in which the plan feature is on on both sides, so plan code that is conditional on another feature's switch is seen (C19.b).",
       "Trusted: clang 14 / gcc 12 front ends; witness w_core as the set of API uses that must compile. 'Observable "
       "behaviour unchanged' is decided as 'the feature-neutral functions have identical event summaries', not by running.",
       "feature-matrix type checking + byte-level translation validation of the amalgamation + differential AST facts",
@@ -64,7 +64,7 @@ claim('C17', 'other',
       "Decides the statement through its only possible causes in code of this shape: every scalar member of every FFSM2 "
       "record is definitely initialised by every constructor; hand-written copy/move constructors copy every base and "
       "member from the same base/member; copy/move construction of an automatically activated machine cannot reach "
-      "initialEnter; no mutable static state and no non-deterministic external call. No value depends on an address (no pointer<->integer casts, pointer ordering or identity tests other than null, C17.e); user bases of states are covered by the copy rule; hand-written copies of the bit array are decided bit by bit for every capacity (C20.e refinement); copy/move operations leave their source untouched (C17.f). Equality of two executions as such "
+      "initialEnter; no mutable static state and no non-deterministic external call. No value depends on an address (no pointer<->integer casts, pointer ordering or identity tests other than null, C17.e); user bases of states are covered by the copy rule; hand-written copies of the bit array are decided bit by bit for every capacity (C20.e refinement); copy/move operations leave their source untouched (C17.f); a member copied in the constructor body counts only if it is definitely assigned from the same member on every path. Equality of two executions as such "
       "is not decided.",
       "Trusted: clang's constructor-initialiser lists incl. implicit ones; witnesses w_core/w_pay instantiate every class.",
       "definite-initialisation and copy-coverage rules over record/constructor facts + call-graph reachability",
@@ -86,7 +86,7 @@ claim('C02', 'other',
       "request only in the guarded loops. Order rules: processing last. Must-equality dataflow through processRequest / "
       "initialEnter: the state entered/re-entered is the destination of the transition shown to enter() as current, which is a "
       "whole copy of the pending transition of a round whose guards did not cancel; nothing survives => no callback, same active "
-      "state; requested is invalid at return. Comparison-domain evaluation of the de-duplication test. Only the four request writers and request processing write the request slot (C02.g); each writer replaces the whole request through the assignment operator of the request's own type. Processing continues up to the configured substitution limit and stops no earlier (C02.h, shares C04.a); after the substitution loop nothing on the way to the return writes the request slot, so a request left over by the limit is carried to the next processing point (C02.i).",
+      "state; requested is invalid at return. Comparison-domain evaluation of the de-duplication test; the request comparison spans every payload byte for payload types of 1..300 bytes (memcmp size / counted byte loop whose counter cannot wrap). Only the four request writers and request processing write the request slot (C02.g); each writer replaces the whole request through the assignment operator of the request's own type. Processing continues up to the configured substitution limit and stops no earlier (C02.h, shares C04.a); after the substitution loop nothing on the way to the return writes the request slot, so a request left over by the limit is carried to the next processing point (C02.i).",
       "Assumes A1-A3; guards are unknown booleans, callbacks havoc exactly the computed effect set of their control flavour.",
       "effect sets + CFG order rules + must-equality abstract interpretation + comparison-domain evaluation of the branch conditions that control a guard round (located by control dependence)",
       "DESIGN.md section 4 C02")
@@ -104,7 +104,7 @@ claim('C04', 'other',
       "Counted-loop rule on both substitution loops (bound == the limit of the configuration type and of the witness declaration, for limits 1,2,3,4,255; single increment; one "
       "guard round per iteration; 8-bit counter cannot wrap), acyclic call graph, every other loop classified, end state at "
       "the limit covered by the C02.d/C01.a interpretation (loop exit edge with a request still outstanding), leftover request "
-      "only consumable through the guarded loops. The configured substitution limit survives every order of the configuration setters (C04.e, type-level). A veto always takes, whoever casts it (C04.f). The leftover request is not written between the loop and the return (C04.d path rule).",
+      "only consumable through the guarded loops. The configured substitution limit survives every order of the configuration setters (C04.e, type-level). A veto always takes, whoever casts it (C04.f). The leftover request is not written between the loop and the return (C04.d path rule). Every call processes requests exactly once: immediate changes are request + one processing, update()/react() end in one (C04.g).",
       "Termination of the plan-list walks rests on list integrity (C10 residue).",
       "spelling-independent bounded-loop analysis (local counter, +1 on every iterating path, constant bound) + call-graph acyclicity + abstract interpretation",
       "DESIGN.md section 4 C04")
@@ -154,7 +154,7 @@ claim('C08', 'other',
       "is active, firing only under the success test of the same iterator and with the task origin as caller, remove after fire, "
       "exactly-once success consumption, deferred consumption after the scan; who-may-call and position of the plan step; the leaf "
       "status mapping on its truth table, maxima for the status operators; exhaustive comparison-domain evaluation of the scan's "
-      "activity predicate (origin 0 included); sibling agreement of the two specialisations (also as call sequences, C08.f); on effect summaries succeed(id)/fail(id) set exactly the bit of id and the cycle result, the parameterless forms report for the calling state (C08.h); clearTaskStatus clears both bits of its id unconditionally (C08.e); the plan-exists gate is set by append and cleared by the full reset only (C08.g) and the per-cycle status is reset after the plan step on every path (C08.i); order across plan edits shares the link/unlink/iterator summaries of C10 (C08.j); a full reset forgets the task links too (C08.k = C09.f).",
+      "activity predicate (origin 0 included); sibling agreement of the two specialisations (also as call sequences, C08.f); on effect summaries succeed(id)/fail(id) set exactly the bit of id and the cycle result, the parameterless forms report for the calling state -- decided per decision path under the precondition 'valid state id', also on machines whose task capacity differs from the state count (C08.h); clearTaskStatus clears both bits of its id unconditionally (C08.e); the plan-exists gate is set by append and cleared by the full reset only (C08.g) and the per-cycle status is reset after the plan step on every path (C08.i); order across plan edits shares the link/unlink/iterator summaries of C10 (C08.j); a full reset forgets the task links too (C08.k = C09.f).",
       "The order in which tasks are visited relies on the plan list (C10 residue). Assumes A1-A3.",
       "CFG dominance / control-dependence rules + comparison-domain evaluation + sibling agreement",
       "DESIGN.md section 4 C08")
@@ -187,7 +187,7 @@ claim('C12', 'other',
       "Writer/reader field tables extracted from the CFGs of save()/load() agree per activation mode; only the activity bit and "
       "registry.active are written, into a buffer cleared first; type-level capacity facts for every N in 1..255 (thorough) / 31 "
       "sizes (quick); save() const and effect-free on the machine; load() interpreted abstractly for active and inactive loaders: "
-      "exactly the C01 transitions, entering the state read, no guards. Loading into an active machine is observable as exit+enter / reenter / initial enter and leaves no request of the loader outstanding; stream buffers own ceil(N/8) bytes for every N <= 255 (type-level).",
+      "exactly the C01 transitions, entering the state read, no guards. Loading into an active machine is observable as exit+enter / reenter / initial enter and leaves no request of the loader outstanding; stream buffers own ceil(N/8) bytes for every N <= 255 (type-level); the stream kernels are exact at every serial-buffer size a machine can have, 1..9 bits, including a field that ends on the last bit of the buffer (C12.e = C13.d).",
       "Assumes the buffer passed to load() was produced by save() of the same machine type (A3).",
       "CFG path tables + static_assert obligations + abstract interpretation + effect sets",
       "DESIGN.md section 4 C12")
@@ -197,7 +197,7 @@ claim('C13', 'other',
       "regions (after checking the argument is used in threshold tests only); cursor/width lock-step rule (cursor advances by "
       "exactly N, contiguous fields); writer/reader agreement on byte index, chunk start, chunk width, LSB-first, OR into a cleared "
       "buffer; type-level: the width derived for every state count 1..255 suffices. C13.d: bit-provenance abstract interpretation "
-      "of write<N>/read<N> for every width 1..32 and every start cursor of the 255-bit stream decides the value-level clauses for "
+      "of write<N>/read<N> for every width 1..32 and every start cursor of the 255-bit stream and of streams of 1..9, 16 and 64 bits decides the value-level clauses for "
       "all values; writer and reader hold the caller's buffer by reference (C13.f); (own field placed LSB-first at [cursor, cursor+N), nothing else altered, bits past the cursor zero, read returns "
       "exactly the field, cursor += N), which composes to the round trip over every field sequence.",
       "The kernels are analysed at capacity 255; they mention the capacity in an assertion only. Where C13.d decides, the shape rules "
@@ -219,7 +219,7 @@ claim('C18', 'other',
       "Allocation-freedom from the AST (placement new only, no delete, allowed externals) cross-checked on the undefined symbols "
       "of compiled witness objects; payload/member alignment from the record layout; definite initialisation; constant or locally "
       "bounded shift amounts; positive extents; reinterpret_cast only on payload storage; interval reasoning on locally guarded "
-      "subscripts. Absence of out-of-bounds accesses for all histories is NOT decided (unguarded subscripts are counted as 'no verdict'). The byte storage behind every bit container has ceil(N/8) bytes for every N <= 255 (exhaustive type-level unit, C18.e). The task pool's slot indices stay inside its array by the per-operation vacant-list summaries (C18.f = C10.a/c) and every bit-container operation addresses only storage the container owns, for every capacity 1..255 and index (C18.g = the C20.e refinement); the state ids the library itself feeds into single-index bit operations, the root head's invalid id included, are below the capacity (C18.h); every per-task side array of the plan data has an element for every index the task pool can hand out (C18.i, type-level on witness capacities 1, 2, 8, 254).",
+      "subscripts. Absence of out-of-bounds accesses for all histories is NOT decided (unguarded subscripts are counted as 'no verdict'). The byte storage behind every bit container has ceil(N/8) bytes for every N <= 255 (exhaustive type-level unit, C18.e). The task pool's slot indices stay inside its array by the per-operation vacant-list summaries (C18.f = C10.a/c) and every bit-container operation addresses only storage the container owns, for every capacity 1..255 and index (C18.g = the C20.e refinement); the state ids the library itself feeds into single-index bit operations, the root head's invalid id included, are below the capacity (C18.h); every per-task side array of the plan data has an element for every index the task pool can hand out (C18.i, type-level on witness capacities 1, 2, 8, 254); the bits save()/load() move fit the serial buffer for every state count (C18.j = C12.b).",
       "Residue: value ranges of indices kept by data-structure invariants.",
       "AST effect rules + object symbol table + record layout + local interval analysis",
       "DESIGN.md section 4 C18")
